@@ -1,0 +1,114 @@
+//go:build verif
+
+// Contracts for the deductive verifier in /verif (govc). Only compiled with -tags verif.
+//
+// C20, safety half: progress and termination of the header parser's loops, index/slice/make
+// safety (nopanic) of the functions where it does not rest on an unmodelled library function,
+// non-negative indentation for strings.Repeat, and the size limits of the stream decoder (guards).
+//
+// NOT proved here (see /verif/props/C20.json): the round trip decode(encode(a)) == a; termination
+// of the mutual recursion parseEntry <-> parseList/parseMap (ordinary functions are handled by
+// contract, govc proves no termination for them); nopanic of parseEntry, parseHeaders, parseMap,
+// (*Decoder).Decode, readUntil and peek: their remaining bounds need facts about strings.Index,
+// bytes.Index/HasSuffix, bytes.Buffer and bufio.Reader, which have no model and cannot be given a
+// contract from a package file. To see exactly those obligations add `nopanic` to the three parse
+// functions and `0 <= consumedByIntro && consumedByIntro <= len(lines[first])` to parseEntry's
+// requires: everything else in them discharges.
+
+package asserts
+
+// ---- asserts/headers.go ----------------------------------------------------------------------
+
+// strings.Repeat panics on a negative count: no caller may ask for a negative indent.
+// (The result is base indentation followed by prefix, so it is at least as long as prefix.)
+//@ func nestingPrefix
+//@   props C20
+//@   requires baseIndent >= 0
+//@   ensures len(result) >= len(prefix)
+
+// Either headers or an error, never both, never neither. Every iteration consumes at least one
+// line (progress post of parseEntry), so the loop terminates.
+//@ func parseHeaders
+//@   props C20
+//@   ensures (result1 == nil) == (result0 != nil)
+//@   loop 0: invariant 0 <= i && i <= len(lines)
+//@   loop 0: decreases len(lines) - i
+
+// first is a valid line; on success at least that line was consumed and the returned index does
+// not run past the input (progress: this is what makes the loops of the callers terminate).
+//@ func parseEntry
+//@   props C20
+//@   requires 0 <= first && first < len(lines)
+//@   requires baseIndent >= 0
+//@   ensures err == nil ==> first < firstAfter && firstAfter <= len(lines)
+
+// first is the line after the introduction line (hence >= 1, lines[first-1] is read for the error
+// message) and may be the end of input. size counts at least one byte per continuation line, so
+// the make([]byte, 0, size-1) is never asked for a negative capacity.
+//@ func parseMultilineText
+//@   props C20
+//@   nopanic
+//@   requires 1 <= first && first <= len(lines)
+//@   requires baseIndent >= 0
+//@   ensures err == nil ==> first < firstAfter && firstAfter <= len(lines)
+//@   loop 0: invariant first <= j && j <= len(lines) && i == first && size >= j - first
+//@   loop 0: invariant forall k int :: first <= k && k < j ==> strings.HasPrefix(lines[k], prefix)
+//@   loop 0: decreases len(lines) - j
+//@   loop 1: invariant first < i && i <= j && j <= len(lines)
+//@   loop 1: invariant forall k int :: first <= k && k < j ==> strings.HasPrefix(lines[k], prefix)
+//@   loop 1: decreases j - i
+
+//@ func parseList
+//@   props C20
+//@   nopanic
+//@   requires 0 <= first && first <= len(lines)
+//@   requires baseIndent >= 0
+//@   ensures err == nil ==> first <= firstAfter && firstAfter <= len(lines)
+//@   loop 0: invariant first <= j && j <= len(lines)
+//@   loop 0: decreases len(lines) - j
+
+//@ func parseMap
+//@   props C20
+//@   requires 0 <= first && first <= len(lines)
+//@   requires baseIndent >= 0
+//@   ensures err == nil ==> first <= firstAfter && firstAfter <= len(lines)
+//@   loop 0: invariant first <= j && j <= len(lines)
+//@   loop 0: decreases len(lines) - j
+
+// ---- asserts/asserts.go: stream decoder ------------------------------------------------------
+
+//@ func (*Decoder).peek
+//@   props C20
+//@   requires d != nil
+
+// exactly the requested size is asked from the reader
+//@ func (*Decoder).readExact
+//@   props C20
+//@   nopanic
+//@   requires d != nil
+//@   guard call (*Decoder).peek: arg1 == size
+
+// Limit: every size asked from the reader is at most maxSize, except the very first request which
+// is the decoder's initial buffer size. A successful result contains at least the delimiter.
+//@ func (*Decoder).readUntil
+//@   props C20
+//@   requires d != nil
+//@   ensures result1 == nil && 1 <= len(delim) && len(delim) <= old(d.initialBufSize) ==> len(result0) >= len(delim)
+//@   guard call (*Decoder).peek: arg1 <= maxSize || arg1 == old(d.initialBufSize)
+//@   loop 0: invariant 1 <= len(delim) && len(delim) <= old(d.initialBufSize) ==> size >= old(d.initialBufSize) && last >= 0
+//@   loop 0: invariant size <= maxSize || size == old(d.initialBufSize)
+
+// Limits: headers are searched up to maxHeadersSize, trailer and signature up to maxSigSize; the
+// body is read only with a positive length that is at most the default maximum and, when the
+// type has its own maximum, at most that; the content buffer is asked for at least the headers
+// (capacity never negative nor smaller than what is written first) and for no more than headers
+// plus the maximal body. The lower bound FAILS on the current code: a negative body-length passes
+// the two upper-limit tests and reaches make([]byte, 0, len(headAndSep)+length).
+//@ func (*Decoder).Decode
+//@   props C20
+//@   requires d != nil
+//@   guard call (*Decoder).readUntil: arg2 == d.maxHeadersSize || arg2 == d.maxSigSize
+//@   guard call (*Decoder).readExact: 0 < arg1 && arg1 <= d.defaultMaxBodySize
+//@   guard call (*Decoder).readExact: d.typeMaxBodySize[typ] != 0 ==> arg1 <= d.typeMaxBodySize[typ]
+//@   guard call bytes.NewBuffer: cap(arg0) <= len(headAndSep) + d.defaultMaxBodySize
+//@   guard call bytes.NewBuffer: len(headAndSep) <= cap(arg0)
